@@ -253,9 +253,4 @@ def specAttempt (r : Request) (cancelAfter : Option Nat) (j : Nat) : Attempt :=
     ctx := r.ctx,
     ctxDone := r.ctx.isSome && cancelledBefore cancelAfter j }
 
-/-- F_retryBody: a request with a body (POST/PUT/PATCH with a struct parameter) on its second or a later
-    attempt — inside the property (it quantifies over the body verbs and says what the body of the
-    request is); RetryMiddleware re-sends the request object whose body reader is already at its end -/
-def F_retryBody (r : Request) (j : Nat) : Bool := r.body.isSome && decide (0 < j)
-
 end ShootVerif.Rest
